@@ -64,7 +64,11 @@ func compilePat(src string) (*gogrep.Pattern, error) {
 
 // usablePatterns keeps the catalogue entries that gogrep compiles and the engine loads on their own.
 func usablePatterns() (ok []patInfo, skipped []string) {
-	for _, c := range patCatalogue {
+	all := append(append([]struct {
+		Src string
+		X   bool
+	}{}, patCatalogue...), pkgPatCatalogue...)
+	for _, c := range all {
 		p, err := compilePat(c.Src)
 		if err != nil {
 			skipped = append(skipped, c.Src+": "+err.Error())
@@ -91,6 +95,45 @@ func usablePatterns() (ok []patInfo, skipped []string) {
 	return ok, skipped
 }
 
+// extraCatalogue: the Contains() outer patterns / sub-patterns that load (each outer with a fixed sub-pattern, each
+// sub-pattern under a fixed outer pattern).
+type extraCatalogue struct {
+	outers []struct{ Pat, Var string }
+	subs   []string
+}
+
+func usableContains() (cat *extraCatalogue, skipped []string) {
+	cat = &extraCatalogue{}
+	try := func(pat, v, sub string) string {
+		rules := "package gorules\n\nimport \"github.com/quasilyte/go-ruleguard/dsl\"\n\nfunc one(m dsl.Matcher) {\n\tm.Match(`" + pat + "`).Where(" + whereSrc("contains "+v+" "+sub) + ").Report(`one`)\n}\n"
+		if _, err := compilePat(pat); err != nil {
+			return "gogrep: " + err.Error()
+		}
+		if _, err := compilePat(sub); err != nil {
+			return "gogrep: " + err.Error()
+		}
+		if _, err := loadRules(rules); err != nil {
+			return err.Error()
+		}
+		return ""
+	}
+	for _, o := range containsOuterCatalogue {
+		if msg := try(o.Pat, o.Var, "probe($_)"); msg != "" {
+			skipped = append(skipped, o.Pat+" Contains: "+msg)
+			continue
+		}
+		cat.outers = append(cat.outers, o)
+	}
+	for _, sub := range containsSubCatalogue {
+		if msg := try("probe($x); $next", "next", sub); msg != "" {
+			skipped = append(skipped, "Contains("+sub+"): "+msg)
+			continue
+		}
+		cat.subs = append(cat.subs, sub)
+	}
+	return cat, skipped
+}
+
 type ruleDesc struct {
 	Idx     int    `json:"idx"`
 	Group   string `json:"group"`
@@ -102,8 +145,12 @@ type ruleDesc struct {
 	Comment bool   `json:"comment,omitempty"` // a MatchComment rule: Src is a regexp
 	Load    int    `json:"load"`              // index of the Load call that brought the rule in
 	Part    int    `json:"part"`              // 0: the loaded file itself; k > 0: the k-th imported bundle file
+	Imports []string `json:"imports,omitempty"` // Matcher.Import calls of the rule's group
+	After   string `json:"after,omitempty"`     // imports of the previous enabled group of the same file ("-": none, "": first group)
 	pat     *gogrep.Pattern
 	re      *regexp.Regexp
+	subVar  string          // Filter "contains <var> <sub>": the searched capture
+	sub     *gogrep.Pattern // ... and the sub-pattern, compiled with the group's imports
 }
 
 // comment patterns (plain regexps without groups; comment rules proper are C12's subject)
@@ -118,6 +165,7 @@ type bundleFile struct {
 
 var bundleRuleRe = regexp.MustCompile("^\\tm\\.(Match|MatchComment)\\(`([^`]*)`\\)\\.Report\\(`[^`]*`\\)$")
 var bundleFuncRe = regexp.MustCompile(`^func (\w+)\(m dsl\.Matcher\) \{$`)
+var bundleImportRe = regexp.MustCompile(`^\tm\.Import\("([^"]+)"\)$`)
 
 // readBundle scans harness/fake/<pkg>/*.go (in `go list` order: by name). Every line inside a matcher function must be a
 // one-line rule, anything else is an error (the description must not silently miss a rule).
@@ -134,10 +182,14 @@ func readBundle(pkg string) ([]bundleFile, error) {
 			return nil, err
 		}
 		bf := bundleFile{Name: name}
-		group := ""
+		group, after := "", ""
+		var gimports []string
 		for i, line := range strings.Split(string(b), "\n") {
 			if m := bundleFuncRe.FindStringSubmatch(line); m != nil {
-				group = m[1]
+				if group != "" {
+					return nil, fmt.Errorf("%s:%d: function inside a function", name, i+1)
+				}
+				group, gimports = m[1], nil
 				continue
 			}
 			if group == "" {
@@ -148,17 +200,31 @@ func readBundle(pkg string) ([]bundleFile, error) {
 			}
 			if line == "}" {
 				group = ""
+				after = afterOf(gimports)
+				continue
+			}
+			if m := bundleImportRe.FindStringSubmatch(line); m != nil {
+				gimports = append(gimports, m[1])
 				continue
 			}
 			m := bundleRuleRe.FindStringSubmatch(line)
 			if m == nil {
 				return nil, fmt.Errorf("%s:%d: rule line not understood: %s", name, i+1, line)
 			}
-			bf.Rules = append(bf.Rules, ruleDesc{Group: group, Line: i + 1, File: name, Src: m[2], Comment: m[1] == "MatchComment"})
+			bf.Rules = append(bf.Rules, ruleDesc{Group: group, Line: i + 1, File: name, Src: m[2], Comment: m[1] == "MatchComment",
+				Imports: append([]string(nil), gimports...), After: after})
 		}
 		out = append(out, bf)
 	}
 	return out, nil
+}
+
+// afterOf renders the imports of the group that precedes a group in its file ("-": it has none).
+func afterOf(imports []string) string {
+	if len(imports) == 0 {
+		return "-"
+	}
+	return strings.Join(imports, ",")
 }
 
 var bundlePkgs = []string{"wb1", "wb2", "wb3", "wb4"}
@@ -205,49 +271,122 @@ func loadHistory(fset *token.FileSet, files map[string]string, order []string, v
 
 var filterSrc = map[string]string{"": "", "dead": "m.Deadcode()", "live": "!m.Deadcode()", "const": `m["x"].Const`}
 
+// whereSrc renders a filter; "contains <var> <sub-pattern>" is m["var"].Contains(`sub-pattern`).
+func whereSrc(filt string) string {
+	if v, sub, ok := splitContains(filt); ok {
+		return `m["` + v + `"].Contains(` + "`" + sub + "`)"
+	}
+	return filterSrc[filt]
+}
+
+func splitContains(filt string) (v, sub string, ok bool) {
+	if !strings.HasPrefix(filt, "contains ") {
+		return "", "", false
+	}
+	rest := strings.TrimPrefix(filt, "contains ")
+	i := strings.Index(rest, " ")
+	if i < 0 {
+		return "", "", false
+	}
+	return rest[:i], rest[i+1:], true
+}
+
+// a rule of a targeted set
+type tRule struct {
+	Pat, Filt, Name string
+	Imports         []string
+}
+
+// targeted sets: shapes that expose a known class of dispatch defects
+//  0: two expression-list rules, the first accepts an early sub-match and rejects the last one
+//  1: the same with statement lists in a multi-match bucket and a single-node rule in between
+//  2: a group without Matcher.Import after a group that binds the same package names, for a standard and a plain name
+//  3: the reverse order (what the patterns of a group mean must not depend on the groups around it)
+//  4: list rules whose filter runs list sub-patterns while the node's matches are still being enumerated
+var targetedSets = []struct {
+	Theme string
+	Rules []tRule
+}{
+	{"", []tRule{{"$y, $x", "const", "a", nil}, {"$y, $x", "", "b", nil}, {"$f($*args)", "", "c", nil}}},
+	{"", []tRule{{"_ = $x; $*_", "const", "a", nil}, {"$x; $y", "", "b", nil}, {"{ $*_ }", "live", "c", nil}, {"{ $*_ }", "", "d", nil}}},
+	{"pkgs", []tRule{{"rand.Int($*_)", "", "a", []string{"crypto/rand", "example.com/wk/b/util"}}, {"rand.Int($*_)", "", "b", nil},
+		{"util.F()", "", "c", []string{"example.com/wk/b/util"}}, {"util.F()", "", "d", nil}}},
+	{"pkgs", []tRule{{"rand.Read($*_)", "", "a", nil}, {"rand.Read($*_)", "", "b", []string{"example.com/wk/rand"}}, {"rand.Read($*_)", "", "c", []string{"crypto/rand"}},
+		{"util.G($x)", "const", "d", nil}, {"util.G($x)", "", "e", []string{"example.com/wk/a/util"}}, {"util.G($x)", "", "f", nil}}},
+	{"contains", []tRule{{"probe($x); $next", "contains next for $*_ { $*_ }", "a", nil}, {"$x, $y", "contains y $_($*_)", "b", nil},
+		{"$f($*args)", "contains args $_ + $_", "c", nil}}},
+}
+
 // genRuleSet renders an abstract rule description both to DSL source files and to the oracle's rule list (load order).
-func genRuleSet(rng *rand.Rand, pats []patInfo, bundles map[string][]bundleFile, setIdx int) (files map[string]string, order []string, rules []ruleDesc, parts []int) {
+// theme: "" (any pattern), "pkgs" (groups with and without Matcher.Import, package-qualified patterns), "contains"
+// (filters that run a sub-pattern).
+func genRuleSet(rng *rand.Rand, pats []patInfo, cat *extraCatalogue, bundles map[string][]bundleFile, setIdx int, pc patCache) (files map[string]string, order []string, rules []ruleDesc, parts []int, theme string) {
 	files = map[string]string{}
-	var xs []patInfo
+	var xs, plain, plainX, pkgs, pkgsX []patInfo
 	for _, p := range pats {
+		if isPkgPat(p.Src) {
+			pkgs = append(pkgs, p)
+			if p.X {
+				pkgsX = append(pkgsX, p)
+			}
+			continue
+		}
+		plain = append(plain, p)
 		if p.X {
-			xs = append(xs, p)
+			plainX = append(plainX, p)
 		}
 	}
-	// targeted sets first: shapes that expose a known class of dispatch defects
-	//  0: two expression-list rules, the first accepts an early sub-match and rejects the last one
-	//  1: the same with statement lists in a multi-match bucket and a single-node rule in between
-	targeted := [][][3]string{
-		{{"$y, $x", "const", "a"}, {"$y, $x", "", "b"}, {"$f($*args)", "", "c"}},
-		{{"_ = $x; $*_", "const", "a"}, {"$x; $y", "", "b"}, {"{ $*_ }", "live", "c"}, {"{ $*_ }", "", "d"}},
+	xs = plainX
+	// fill in the compiled pattern(s) of a rule from its own group's imports
+	finish := func(r ruleDesc) (ruleDesc, bool) {
+		p, err := pc.compile(r.Src, r.Imports)
+		if err != nil {
+			return r, false
+		}
+		r.pat, r.Tag = p, int(p.NodeTag())
+		if v, sub, ok := splitContains(r.Filter); ok {
+			sp, err := pc.compile(sub, r.Imports)
+			if err != nil {
+				return r, false
+			}
+			r.subVar, r.sub = v, sp
+		}
+		return r, true
 	}
-	if setIdx < len(targeted) {
+	importLines := func(imports []string) string {
+		var sb strings.Builder
+		for _, p := range imports {
+			sb.WriteString("\tm.Import(\"" + p + "\")\n")
+		}
+		return sb.String()
+	}
+	if setIdx < len(targetedSets) {
+		ts := targetedSets[setIdx]
 		var sb strings.Builder
 		name := fmt.Sprintf("rules%d_t.go", setIdx)
 		sb.WriteString("package gorules\n\nimport \"github.com/quasilyte/go-ruleguard/dsl\"\n\n")
 		line := 5
-		for _, tr := range targeted[setIdx] {
-			var pi *patInfo
-			for i := range pats {
-				if pats[i].Src == tr[0] {
-					pi = &pats[i]
-				}
+		after := ""
+		for _, tr := range ts.Rules {
+			group := fmt.Sprintf("t%d_%s", setIdx, tr.Name)
+			where := ""
+			if tr.Filt != "" {
+				where = ".Where(" + whereSrc(tr.Filt) + ")"
 			}
-			if pi == nil {
+			r, ok := finish(ruleDesc{Idx: len(rules), Group: group, Line: line + 1 + len(tr.Imports), File: name, Src: tr.Pat, Filter: tr.Filt, Imports: tr.Imports, After: after})
+			if !ok {
 				continue
 			}
-			group := fmt.Sprintf("t%d_%s", setIdx, tr[2])
-			where := ""
-			if tr[1] != "" {
-				where = ".Where(" + filterSrc[tr[1]] + ")"
-			}
-			sb.WriteString("func " + group + "(m dsl.Matcher) {\n\tm.Match(`" + tr[0] + "`)" + where + ".Report(`" + group + "`)\n}\n\n")
-			rules = append(rules, ruleDesc{Idx: len(rules), Group: group, Line: line + 1, File: name, Src: pi.Src, Tag: pi.Tag, Filter: tr[1], pat: pi.pat})
-			line += 4
+			sb.WriteString("func " + group + "(m dsl.Matcher) {\n" + importLines(tr.Imports) + "\tm.Match(`" + tr.Pat + "`)" + where + ".Report(`" + group + "`)\n}\n\n")
+			rules = append(rules, r)
+			line += 4 + len(tr.Imports)
+			after = afterOf(tr.Imports)
 		}
 		files[name] = sb.String()
-		return files, []string{name}, rules, []int{0}
+		return files, []string{name}, rules, []int{0}, ts.Theme
 	}
+	theme = []string{"", "", "", "pkgs", "pkgs", "contains", "contains", "pkgs+contains"}[rng.Intn(8)]
+	isPkgs, isContains := strings.Contains(theme, "pkgs"), strings.Contains(theme, "contains")
 	// a load history: 1-4 Load calls; each file is one of
 	//   syntax    groups of Match rules
 	//   comment   groups of MatchComment rules only (contributes no syntax rule)
@@ -276,6 +415,9 @@ func genRuleSet(rng *rand.Rand, pats []patInfo, bundles map[string][]bundleFile,
 			if fi == nfiles-1 && rng.Intn(2) == 0 {
 				pkg = []string{"wb1", "wb4"}[rng.Intn(2)] // the bundles that end without syntax rules
 			}
+			if isPkgs && rng.Intn(2) == 0 {
+				pkg = []string{"wb2", "wb3"}[rng.Intn(2)] // the bundles whose groups have imports of their own
+			}
 			prefix = fmt.Sprintf("b%d", fi)
 			imported = bundles[pkg]
 			w("import \"example.com/" + pkg + "\"\n\nfunc init() {\n\tdsl.ImportRules(\"" + prefix + "\", " + pkg + ".Bundle)\n}\n")
@@ -285,6 +427,7 @@ func genRuleSet(rng *rand.Rand, pats []patInfo, bundles map[string][]bundleFile,
 		if kind == "bundle" {
 			ngroups = rng.Intn(3) // the importing file may have no groups of its own
 		}
+		after := ""
 		for gi := 0; gi < ngroups; gi++ {
 			group := fmt.Sprintf("g%d_%d_%d", setIdx, fi, gi)
 			gkind := kind
@@ -299,7 +442,13 @@ func genRuleSet(rng *rand.Rand, pats []patInfo, bundles map[string][]bundleFile,
 			if gkind == "filtered" {
 				group += "_off"
 			}
+			// the group's own imports: every other group of a package-themed set, now and then elsewhere
+			var gimports []string
+			if (isPkgs && rng.Intn(2) == 0) || (!isPkgs && rng.Intn(12) == 0) {
+				gimports = genImports(rng)
+			}
 			w("func " + group + "(m dsl.Matcher) {\n")
+			w(importLines(gimports))
 			nmatch := 1
 			if rng.Intn(4) == 0 {
 				nmatch = 2
@@ -312,9 +461,37 @@ func genRuleSet(rng *rand.Rand, pats []patInfo, bundles map[string][]bundleFile,
 					continue
 				}
 				filt := []string{"", "", "", "dead", "live", "const"}[rng.Intn(6)]
-				pool := pats
+				if (isContains && rng.Intn(2) == 0) || (!isContains && rng.Intn(12) == 0) {
+					filt = "contains"
+				}
+				if filt == "contains" && len(cat.outers) > 0 && len(cat.subs) > 0 {
+					// one alternative: the searched capture must be bound by every alternative
+					var o struct{ Pat, Var string }
+					var sub string
+					for try := 0; try < 20; try++ {
+						o = cat.outers[rng.Intn(len(cat.outers))]
+						if try < 10 && rng.Intn(2) == 0 {
+							o = cat.outers[rng.Intn(12)%len(cat.outers)] // the list patterns
+						}
+						sub = cat.subs[rng.Intn(len(cat.subs))]
+						if isPkgs || len(gimports) > 0 || (!isPkgPat(o.Pat) && !isPkgPat(sub)) {
+							break
+						}
+					}
+					filt = "contains " + o.Var + " " + sub
+					r, ok := finish(ruleDesc{Idx: len(rules), Group: group, Line: line + 1, File: name, Src: o.Pat, Filter: filt, Load: fi, Imports: gimports, After: after})
+					if ok {
+						if gkind != "filtered" {
+							rules = append(rules, r)
+						}
+						w("\tm.Match(\n\t\t`" + o.Pat + "`,\n\t).Where(" + whereSrc(filt) + ").Report(`" + group + "`)\n")
+						continue
+					}
+					filt = ""
+				}
+				pool, pkgPool := plain, pkgs
 				if filt == "const" {
-					pool = xs
+					pool, pkgPool = xs, pkgsX
 				}
 				// a popular pattern now and then, so that rules compete for the same nodes
 				w("\tm.Match(\n")
@@ -329,18 +506,24 @@ func genRuleSet(rng *rand.Rand, pats []patInfo, bundles map[string][]bundleFile,
 							}
 						}
 					}
+					if len(pkgPool) > 0 && ((isPkgs && rng.Intn(4) != 0) || (!isPkgs && len(gimports) > 0 && rng.Intn(2) == 0)) {
+						p = pkgPool[rng.Intn(len(pkgPool))]
+					}
 					if gkind != "filtered" {
-						rules = append(rules, ruleDesc{Idx: len(rules), Group: group, Line: line, File: name, Src: p.Src, Tag: p.Tag, Filter: filt, Load: fi, pat: p.pat})
+						if r, ok := finish(ruleDesc{Idx: len(rules), Group: group, Line: line, File: name, Src: p.Src, Filter: filt, Load: fi, Imports: gimports, After: after}); ok {
+							rules = append(rules, r)
+						}
 					}
 					w("\t\t`" + p.Src + "`,\n")
 				}
 				w("\t)")
 				if filt != "" {
-					w(".Where(" + filterSrc[filt] + ")")
+					w(".Where(" + whereSrc(filt) + ")")
 				}
 				w(".Report(`" + group + "`)\n")
 			}
 			w("}\n\n")
+			after = afterOf(gimports)
 		}
 		for bi, bf := range imported {
 			for _, r := range bf.Rules {
@@ -350,18 +533,8 @@ func genRuleSet(rng *rand.Rand, pats []patInfo, bundles map[string][]bundleFile,
 				r.Idx, r.Group, r.Load, r.Part = len(rules), prefix+"/"+r.Group, fi, bi+1
 				if r.Comment {
 					r.re = regexp.MustCompile(r.Src)
-				} else {
-					found := false
-					for _, q := range pats {
-						if q.Src == r.Src {
-							r.Tag, r.pat, found = q.Tag, q.pat, true
-						}
-					}
-					if !found {
-						if p, err := compilePat(r.Src); err == nil {
-							r.Tag, r.pat = int(p.NodeTag()), p
-						}
-					}
+				} else if r2, ok := finish(r); ok {
+					r = r2
 				}
 				rules = append(rules, r)
 			}
@@ -370,7 +543,7 @@ func genRuleSet(rng *rand.Rand, pats []patInfo, bundles map[string][]bundleFile,
 		order = append(order, name)
 		parts = append(parts, len(imported))
 	}
-	return files, order, rules, parts
+	return files, order, rules, parts, theme
 }
 
 type rep struct {
@@ -407,16 +580,20 @@ type rsObs struct {
 	LastLean bool              `json:"last_lean"`        // the last Load contributed no syntax rule, earlier ones did
 	Pairs    []string          `json:"pairs,omitempty"` // (node tag, pattern tag) pairs that produced an accepted match
 	Contested int              `json:"contested"`        // nodes on which more than one rule had an accepted match
+	Theme    string            `json:"theme,omitempty"`
+	Contains int               `json:"contains,omitempty"` // catalogue line: usable (outer, sub-pattern) combinations
 }
 
 var multiTagsOracle = map[nodetag.Value]bool{nodetag.BlockStmt: true, nodetag.CaseClause: true, nodetag.CommClause: true, nodetag.File: true}
 
 func runRulesMode(enc *json.Encoder, rng *rand.Rand, nsets, size int, tmp string, withModel bool, extra []string) {
 	pats, skipped := usablePatterns()
-	enc.Encode(rsObs{K: "catalogue", Nodes: len(pats), Skipped: skipped})
+	cat, skipped2 := usableContains()
+	enc.Encode(rsObs{K: "catalogue", Nodes: len(pats), Skipped: append(skipped, skipped2...), Contains: len(cat.outers) * len(cat.subs)})
 	if len(pats) < 20 {
 		return
 	}
+	pc := patCache{}
 	// targets: the kitchen sink and generated nestings
 	type tgt struct {
 		name string
@@ -442,9 +619,26 @@ func runRulesMode(enc *json.Encoder, rng *rand.Rand, nsets, size int, tmp string
 			}
 		}
 	}
-	if len(targets) == 0 {
+	// targets that call equal-named functions of several packages (which package has the plain name rotates)
+	var pkgTargets []tgt
+	{
+		imp := newMemImporter()
+		v0 := rng.Intn(4)
+		for i := 0; i < 2; i++ {
+			name := fmt.Sprintf("pk%d/target.go", i)
+			src := pkgTarget(v0 + i)
+			t, err := checkTargetMem(imp, tmp, name, []byte(src))
+			if err != nil {
+				enc.Encode(rsObs{K: "rs", Target: name, Err: "target: " + err.Error(), Src: src})
+				continue
+			}
+			pkgTargets = append(pkgTargets, tgt{name, t})
+		}
+	}
+	if len(targets) == 0 || len(pkgTargets) == 0 {
 		return
 	}
+	targets = append(targets, pkgTargets...)
 	bundles := map[string][]bundleFile{}
 	for _, pkg := range bundlePkgs {
 		bfs, err := readBundle(pkg)
@@ -455,7 +649,7 @@ func runRulesMode(enc *json.Encoder, rng *rand.Rand, nsets, size int, tmp string
 		bundles[pkg] = bfs
 	}
 	for si := 0; si < nsets; si++ {
-		files, order, rules, parts := genRuleSet(rng, pats, bundles, si)
+		files, order, rules, parts, theme := genRuleSet(rng, pats, cat, bundles, si, pc)
 		fset := token.NewFileSet()
 		var loadErr string
 		via := make([]string, len(order))
@@ -467,7 +661,10 @@ func runRulesMode(enc *json.Encoder, rng *rand.Rand, nsets, size int, tmp string
 			loadErr = err.Error()
 		}
 		tg := targets[si%len(targets)]
-		obs := rsObs{K: "rs", Set: si, Target: tg.name, Rules: rules, Parts: parts, Via: via}
+		if strings.Contains(theme, "pkgs") {
+			tg = pkgTargets[rng.Intn(len(pkgTargets))]
+		}
+		obs := rsObs{K: "rs", Set: si, Target: tg.name, Rules: rules, Parts: parts, Via: via, Theme: theme}
 		// the shape of the load history: per Load call, how many syntax / comment rules it contributed
 		{
 			ns, nc := make([]int, len(order)), make([]int, len(order))
@@ -525,6 +722,8 @@ func runRulesMode(enc *json.Encoder, rng *rand.Rand, nsets, size int, tmp string
 		}
 		state := gogrep.NewMatcherState()
 		state.Types = t.Info
+		subState := gogrep.NewMatcherState() // the oracle's Contains() searches have a state of their own
+		subState.Types = t.Info
 		pairs := map[string]bool{}
 		for _, tn := range order2 {
 			tag := nodetag.FromNode(tn.n)
@@ -562,6 +761,10 @@ func runRulesMode(enc *json.Encoder, rng *rand.Rand, nsets, size int, tmp string
 							}
 						}
 					}
+					if r.sub != nil {
+						root, ok := m.CapturedByName(r.subVar)
+						v = ok && containsOracle(&subState, r.sub, root, m.Capture)
+					}
 					vi := 0
 					if v {
 						vi = 1
@@ -584,6 +787,27 @@ func runRulesMode(enc *json.Encoder, rng *rand.Rand, nsets, size int, tmp string
 				if acc {
 					winners++
 					pairs[fmt.Sprintf("%d/%d", int(tag), r.Tag)] = true
+					if isPkgPat(r.Src) {
+						// a package-qualified pattern reported: own imports or none, and what the group before it had
+						own := "no-import"
+						if len(r.Imports) > 0 {
+							own = "own-import"
+						}
+						prev := "first-group"
+						if r.After == "-" {
+							prev = "after-import-less-group"
+						} else if r.After != "" {
+							prev = "after-importing-group"
+						}
+						part := "file"
+						if r.Part > 0 {
+							part = "bundle"
+						}
+						pairs["pkgpat:"+own+":"+prev+":"+part] = true
+					}
+					if r.sub != nil {
+						pairs[fmt.Sprintf("contains:%d/%d/%d", int(tag), r.Tag, int(r.sub.NodeTag()))] = true
+					}
 					if !multiTagsOracle[tag] {
 						stop = true
 					}
